@@ -35,6 +35,10 @@ type PropFile struct {
 	// GuardCoverage: every function of the listed packages that touches a field declared
 	// `guarded` must be in the function list (so that its accesses carry the guard obligation)
 	GuardCoverage bool `json:"guard_coverage"`
+	// ownership scan (own.go): functions that run concurrently with each other and the struct whose
+	// fields they share
+	GoroutineRoots []GoroutineRoot `json:"goroutine_roots"`
+	SharedStruct   string          `json:"shared_struct"`
 }
 
 func expandKey(k string) string {
@@ -97,6 +101,11 @@ func cmdFuncs(args []string) int {
 		fmt.Println(k)
 	}
 	return 0
+}
+
+type GoroutineRoot struct {
+	Name      string   `json:"name"`
+	Functions []string `json:"functions"`
 }
 
 type oblGroup struct {
@@ -183,7 +192,33 @@ func cmdVerify(args []string) int {
 				}
 			}
 		}
+		if len(pf.GoroutineRoots) > 0 {
+			oo, notes := ownershipObligations(prog, db, &pf)
+			ex.Obls = append(ex.Obls, oo...)
+			for _, n := range notes {
+				assumptions["ownership scan: "+n] = true
+			}
+			assumptions["ownership scan is syntactic and conservative: reach = static callees + every function value mentioned + same-named package methods for interface calls; it decides which goroutine root may touch which field or captured variable, not any ordering; trusted concurrency-safe types: "+strings.Join(ownSafeTypes, ", ")] = true
+		}
 		if pf.GuardCoverage {
+			// a `guarded` declaration must name an existing struct with both fields: a declaration
+			// that matches nothing would otherwise pass vacuously
+			for _, gk := range sortedKeys(db.Guarded) {
+				o := &Obligation{Name: "guard-decl:" + gk, Func: gk, Kind: "guard-decl", Props: []string{pf.ID},
+					Clause: "the guarded field " + gk + " and its lock " + db.Guarded[gk] + " exist in the current tree"}
+				if guardDeclExists(prog, gk, db.Guarded[gk]) {
+					o.Trivial, o.Goal = true, tTrue
+				} else {
+					o.Goal = tFalse
+					o.Script = "(assert true)\n(check-sat)\n"
+				}
+				ex.Obls = append(ex.Obls, o)
+			}
+			for gk, excs := range db.GuardExc {
+				for _, e := range excs {
+					assumptions["accesses to guarded field "+gk+" made by "+e+" are exempt from the lock obligation (declared single-threaded in the contract file - runs after errgroup.Wait: argued, not checked)"] = true
+				}
+			}
 			listed := map[string]bool{}
 			for _, f := range v.Functions {
 				listed[expandKey(f)] = true
@@ -616,6 +651,45 @@ func writeEvidence(path string, pf PropFile, tier string, seed int, order []stri
 	os.WriteFile(path, b, 0o644)
 }
 
+func sortedKeys(m map[string]string) []string {
+	var out []string
+	for k := range m {
+		out = append(out, k)
+	}
+	sort.Strings(out)
+	return out
+}
+
+// guardDeclExists: "pkgpath.Type.field" names a struct type of a loaded package that has both the
+// field and the lock field.
+func guardDeclExists(prog *Program, gk, lock string) bool {
+	i := strings.LastIndex(gk, ".")
+	tk, field := gk[:i], gk[i+1:]
+	for _, sp := range prog.ByPkg {
+		for _, m := range sp.Members {
+			t, ok := m.(*ssa.Type)
+			if !ok || TypeKey(t.Type()) != tk {
+				continue
+			}
+			stt, ok := t.Type().Underlying().(*types.Struct)
+			if !ok {
+				return false
+			}
+			hasF, hasL := false, false
+			for j := 0; j < stt.NumFields(); j++ {
+				if stt.Field(j).Name() == field {
+					hasF = true
+				}
+				if stt.Field(j).Name() == lock {
+					hasL = true
+				}
+			}
+			return hasF && hasL
+		}
+	}
+	return false
+}
+
 // guardedAccessors lists the functions of the loaded repository packages that load or store a field
 // declared `guarded`.
 func guardedAccessors(prog *Program, db *SpecDB) []string {
@@ -629,9 +703,15 @@ func guardedAccessors(prog *Program, db *SpecDB) []string {
 		for _, b := range fn.Blocks {
 			for _, in := range b.Instrs {
 				if fa, ok := in.(*ssa.FieldAddr); ok {
+					if al, ok := fa.X.(*ssa.Alloc); ok && !al.Heap {
+						continue // a struct in the function's own frame
+					}
 					if pt, ok := fa.X.Type().Underlying().(*types.Pointer); ok {
 						if _, g := db.Guarded[TypeKey(pt.Elem())+"."+fieldName(fa)]; g {
 							k := FuncKey(fn)
+							if guardExempt(db, TypeKey(pt.Elem())+"."+fieldName(fa), k) {
+								continue
+							}
 							if !seen[k] {
 								seen[k] = true
 								out = append(out, k)
